@@ -112,7 +112,18 @@ def generate_code(prog: Program, eng=None) -> str:
             modes_str = ", ".join(modes)
         else:
             modes_str = "(" + ", ".join(modes) + ")"
-        op = f"    ops.{name}({params_str}) | {modes_str}"
+        # measurement options are keyword arguments; they are not part of cmd.op.p
+        kwargs = []
+        if getattr(cmd.op, "select", None) is not None:
+            kwargs.append(f"select={cmd.op.select}")
+        if getattr(cmd.op, "dark_counts", None) is not None:
+            kwargs.append(f"dark_counts={cmd.op.dark_counts}")
+        if kwargs:
+            params_str = ", ".join(([params_str] if params_str else []) + kwargs)
+
+        # inverted gates
+        dagger_str = ".H" if getattr(cmd.op, "dagger", False) else ""
+        op = f"    ops.{name}({params_str}){dagger_str} | {modes_str}"
 
         code_seq.append(op)
 
